@@ -930,6 +930,14 @@ def specObsOf (s : Nat) (v : Ver) : Option Obs := do
 
 /-! ## negotiability -/
 
+/-- `_serverGetClientHello`, resumption ("are we still willing to use that old cipher"): the cached
+    session's suite must be among the suites the server would select from for the NEGOTIATED version
+    `v` — the get*Suites for `v` under the server's settings, passed through filterForVersion(v, v) -/
+def resumeSuiteOk (macNames : List MName) (cipherNames : List CName) (kexNames : List KName)
+    (v : Ver) (s : Nat) : Bool :=
+  isIn s (filterForVersion (Getter.all.flatMap fun g => getter g macNames cipherNames kexNames v) v v)
+
+
 /-- some selector returns `s` for version `v` under all-enabling settings -/
 def selectableIn (v : Ver) (s : Nat) : Bool :=
   Getter.all.any fun g => isIn s (getter g fullMac fullCipher fullKex v)
